@@ -312,6 +312,72 @@ static void do_certck(char **w) {
 	if (c.p) { printf(" check=%d", x509_cert_check(c.p, c.n, X509_cert_server_auth, &plc) == 1); free(c.p); }
 }
 
+/* ------------------------------------------------------------------ signature algorithm identifiers (wave 2)
+ * sigalg <cert|req|crl> <inner 0|2|3|4> <outer 0..7> <good|random|corrupt>: the TBS comes from the library's own
+ * x509_tbs_*_to_der, the outer SEQUENCE { tbs, AlgorithmIdentifier, BIT STRING } is composed here, because the
+ * *_sign_to_der functions hard-wire the outer identifier.  Algorithm ids as in props/C07/harness.c. */
+static const uint8_t SA0[] = { 0x30,0x0a,0x06,0x08,0x2a,0x81,0x1c,0xcf,0x55,0x01,0x83,0x75 };
+static const uint8_t SA1[] = { 0x30,0x0c,0x06,0x08,0x2a,0x81,0x1c,0xcf,0x55,0x01,0x83,0x75,0x05,0x00 };
+static const uint8_t SA2[] = { 0x30,0x0a,0x06,0x08,0x2a,0x86,0x48,0xce,0x3d,0x04,0x03,0x02 };
+static const uint8_t SA3[] = { 0x30,0x0d,0x06,0x09,0x2a,0x86,0x48,0x86,0xf7,0x0d,0x01,0x01,0x0b,0x05,0x00 };
+static const uint8_t SA4[] = { 0x30,0x0c,0x06,0x08,0x2a,0x81,0x1c,0xcf,0x55,0x01,0x83,0x78,0x05,0x00 };
+static const uint8_t SA5[] = { 0x30,0x05,0x06,0x03,0x2a,0x03,0x04 };
+static const uint8_t SA6[] = { 0x30,0x0c,0x06,0x08,0x2a,0x86,0x48,0xce,0x3d,0x04,0x03,0x02,0x05,0x00 };
+static const uint8_t SA7[] = { 0x30,0x0d,0x06,0x08,0x2a,0x81,0x1c,0xcf,0x55,0x01,0x83,0x75,0x02,0x01,0x05 };
+static const struct { const uint8_t *p; size_t n; } SALG[8] = { { SA0, sizeof SA0 }, { SA1, sizeof SA1 }, { SA2, sizeof SA2 }, { SA3, sizeof SA3 },
+	{ SA4, sizeof SA4 }, { SA5, sizeof SA5 }, { SA6, sizeof SA6 }, { SA7, sizeof SA7 } };
+static int inner_oid(int id) { return id == 0 ? OID_sm2sign_with_sm3 : id == 2 ? OID_ecdsa_with_sha256 : id == 3 ? OID_rsasign_with_sha256 : id == 4 ? OID_rsasign_with_sm3 : -1; }
+static void do_sigalg(char **w) {
+	const char *kind = w[1]; int inner = atoi(w[2]), outer = atoi(w[3]); const char *mode = w[4];
+	uint8_t name[256]; size_t namelen = 0; uint8_t serial[8] = { 9, 8, 7, 6, 5, 4, 3, 2 };
+	uint8_t *tbs = NULL, *p; size_t tbslen = 0, len = 0, clen, hl = 0; uint8_t sig[SM2_MAX_SIGNATURE_SIZE]; size_t siglen = 0; SM2_SIGN_CTX sctx;
+	blob_t obj = { NULL, 0 }; uint8_t *q; int ioid = inner_oid(inner);
+	if (outer < 0 || outer > 7 || (ioid < 0 && strcmp(kind, "req")) || x509_name_set(name, &namelen, sizeof name, "CN", NULL, NULL, "VERIF", NULL, "sigalg") != 1) { printf("ERR args"); return; }
+	if (!strcmp(kind, "cert")) {
+		if (x509_tbs_cert_to_der(X509_version_v3, serial, 8, ioid, name, namelen, 1699990000, 1700090000, name, namelen, &keys[1], NULL, 0, NULL, 0, NULL, 0, NULL, &len) != 1) { printf("ERR tbs"); return; }
+		tbs = malloc(len); p = tbs;
+		if (x509_tbs_cert_to_der(X509_version_v3, serial, 8, ioid, name, namelen, 1699990000, 1700090000, name, namelen, &keys[1], NULL, 0, NULL, 0, NULL, 0, &p, &tbslen) != 1) { printf("ERR tbs"); free(tbs); return; }
+	} else if (!strcmp(kind, "req")) {
+		if (x509_request_info_to_der(X509_version_v1, name, namelen, &keys[1], name, 0, NULL, &len) != 1) { printf("ERR tbs"); return; }
+		tbs = malloc(len); p = tbs;
+		if (x509_request_info_to_der(X509_version_v1, name, namelen, &keys[1], name, 0, &p, &tbslen) != 1) { printf("ERR tbs"); free(tbs); return; }
+	} else {
+		if (x509_tbs_crl_to_der(X509_version_v2, ioid, name, namelen, 1699990000, 1700090000, NULL, 0, NULL, 0, NULL, &len) != 1) { printf("ERR tbs"); return; }
+		tbs = malloc(len); p = tbs;
+		if (x509_tbs_crl_to_der(X509_version_v2, ioid, name, namelen, 1699990000, 1700090000, NULL, 0, NULL, 0, &p, &tbslen) != 1) { printf("ERR tbs"); free(tbs); return; }
+	}
+	if (sm2_sign_init(&sctx, &keys[1], SM2_DEFAULT_ID, SM2_DEFAULT_ID_LENGTH) != 1 || sm2_sign_update(&sctx, tbs, tbslen) != 1
+		|| sm2_sign_finish(&sctx, sig, &siglen) != 1) { printf("ERR sign"); free(tbs); return; }
+	if (!strcmp(mode, "corrupt")) sig[siglen - 5] ^= 0x40;
+	else if (!strcmp(mode, "random")) { size_t i; siglen = 70; for (i = 0; i < siglen; i++) sig[i] = (uint8_t)(i * 37 + 11); }
+	clen = tbslen + SALG[outer].n;
+	if (asn1_bit_octets_to_der(sig, siglen, NULL, &clen) != 1 || asn1_sequence_header_to_der(clen, NULL, &hl) != 1) { printf("ERR compose"); free(tbs); return; }
+	obj.p = malloc(hl + clen); q = obj.p;
+	asn1_sequence_header_to_der(clen, &q, &obj.n);
+	memcpy(q, tbs, tbslen); q += tbslen; obj.n += tbslen; memcpy(q, SALG[outer].p, SALG[outer].n); q += SALG[outer].n; obj.n += SALG[outer].n;
+	asn1_bit_octets_to_der(sig, siglen, &q, &obj.n);
+	free(tbs);
+	if (!strcmp(kind, "cert")) {
+		int plc = 0; blob_t ca = ca_cert_for(name, namelen, 1);
+		if (x509_cert_get_subject(obj.p, obj.n, NULL, NULL) != 1) printf("parse=ERR");
+		else printf("parse=1");
+		printf(" verify=%d by_ca=%d check=%d", x509_signed_verify(obj.p, obj.n, &keys[1], SM2_DEFAULT_ID, SM2_DEFAULT_ID_LENGTH) == 1,
+			ca.p && x509_cert_verify_by_ca_cert(obj.p, obj.n, ca.p, ca.n, SM2_DEFAULT_ID, SM2_DEFAULT_ID_LENGTH) == 1,
+			x509_cert_check(obj.p, obj.n, X509_cert_server_auth, &plc) == 1);
+		free(ca.p);
+	} else if (!strcmp(kind, "req")) {
+		printf("parse=%s", x509_req_get_details(obj.p, obj.n, NULL, NULL, NULL, NULL, NULL, NULL, NULL, NULL, NULL) == 1 ? "1" : "ERR");
+		printf(" verify=%d", x509_req_verify(obj.p, obj.n, SM2_DEFAULT_ID, SM2_DEFAULT_ID_LENGTH) == 1);
+	} else {
+		blob_t ca = ca_cert_for(name, namelen, 1);
+		printf("parse=%s", x509_crl_get_details(obj.p, obj.n, NULL, NULL, NULL, NULL, NULL, NULL, NULL, NULL, NULL, NULL, NULL, NULL, NULL) == 1 ? "1" : "ERR");
+		printf(" verify=%d check=%d", ca.p && x509_crl_verify_by_ca_cert(obj.p, obj.n, ca.p, ca.n, SM2_DEFAULT_ID, SM2_DEFAULT_ID_LENGTH) == 1,
+			x509_crl_check(obj.p, obj.n, 1700000000) == 1);
+		free(ca.p);
+	}
+	free(obj.p);
+}
+
 /* ------------------------------------------------------------------ single-bit modifications */
 static void do_flipall(size_t nw, char **w) {
 	const char *kind = w[1]; size_t step = strtoul(w[2], NULL, 10), off = strtoul(w[3], NULL, 10), i; int b;
@@ -351,6 +417,7 @@ static void handle(size_t nw, char **w) {
 	else if (!strcmp(w[0], "name") && nw == 2) do_name(w[1]);
 	else if (!strcmp(w[0], "ext") && nw >= 4) do_ext(nw, w);
 	else if (!strcmp(w[0], "extlen") && nw == 4) do_extlen(w);
+	else if (!strcmp(w[0], "sigalg") && nw == 5) do_sigalg(w);
 	else if (!strcmp(w[0], "certck") && nw == 12) do_certck(w + 1);
 	else if (!strcmp(w[0], "flipall")) do_flipall(nw, w);
 	else printf("ERR bad-op");
